@@ -47,6 +47,7 @@ class Import:
                     gene_key="gene_id", subfeature="exon", directives=[], dialect={"fmt": "gff3" if cls == "_GFFDBCreator" else "gtf"},
                     pragmas={}, dbfn="db.sqlite")
         base.update(attrs)
+        base.setdefault("iterator", IterVal([], dialect=base["dialect"], directives=base["directives"]))
         self.me.attrs.update(base)
         self.traces = []
 
